@@ -48,6 +48,17 @@ CHECKS = {
              note=T_BASE + '; the bounded whole-tree part is never counted as proved',
              technique='contracts on the real functions + symbolic execution + z3 (LIA) for the per-function part; native enumeration against an independent Hashmap specification (labelled bounded) for whole trees',
              design_ref='DESIGN.md §5 C10'),
+ 'C13': dict(category='proof',
+             text='For ALL workchains -128..127 and ALL 32-byte hashes (symbolic): to_str lays out tag/workchain/hash/crc16 per the '
+                  'specification in the requested alphabet, also after earlier renderings of the same object; Address(to_str(v)) == a with '
+                  'the flags as rendered for the raw form and the 8 friendly variants; == / hash contract.  Checksum enforcement for every '
+                  'address: (i) the constructor accepts an ARBITRARY 36-byte payload only if bytes 34..35 == crc16(bytes 0..33) (both '
+                  'bytes), (ii) crc16 is GF(2)-linear (bit-vector lemma on the byte step that C18 proves the real loop equal to), (iii) '
+                  'each of the 48x63 single-symbol error patterns has a non-zero syndrome under the REAL crc16 (finite, exhaustive); '
+                  'hence every one-character substitution is rejected.  crc16 enters (i) through its contract (uninterpreted function).',
+             note=T_BASE + '; T4 base64 inverse pair (assumed model of the stdlib); crc16 by its C18 contract',
+             technique='contracts on the real functions, symbolic execution (uninterpreted crc16/base64 by contract), bit-vector linearity lemma, exhaustive finite syndrome table; z3',
+             design_ref='DESIGN.md §5 C13'),
  'C18': dict(category='proof',
              text='Unbounded proof for every byte string: VCs generated from the AST of the real crc16/crc32c (tables, loop body, init, '
                   'final xor, byte order) and discharged by z3 in the bit-vector theory: each table entry, and the loop body for ALL '
